@@ -380,6 +380,35 @@ func init() {
 			return true
 		}
 	}
+	lastIdx := func(f *frame, in ssa.Instruction, callee *ssa.Function, args []Val, pc string, h *Heap, nm string, resT types.Type) bool {
+		e := f.e
+		r := e.fresh(nm, "Int")
+		var sl, subl string
+		if sv, ok := args[0].(SliceV); ok {
+			sl = sv.L
+		} else {
+			sl = fmt.Sprintf("(slen %s)", e.scalar(args[0]))
+		}
+		switch x := args[1].(type) {
+		case SliceV:
+			subl = x.L
+		case Sc:
+			if e.decls[x.T] == "Str" || strings.HasPrefix(x.T, "|strlit") || x.T == "emptystr" {
+				subl = fmt.Sprintf("(slen %s)", x.T)
+			} else {
+				subl = "1" // a byte or rune
+			}
+		default:
+			subl = "1"
+		}
+		e.assume(fmt.Sprintf("(and (<= (- 1) %s) (or (= %s (- 1)) (<= (+ %s %s) %s)))", r, r, r, subl, sl))
+		f.setResult(in, Sc{r})
+		return true
+	}
+	for _, n := range []string{"strings.LastIndex", "strings.IndexByte", "strings.LastIndexByte", "strings.IndexRune", "strings.IndexAny", "strings.LastIndexAny",
+		"bytes.LastIndex", "bytes.LastIndexByte", "bytes.IndexRune", "bytes.IndexAny"} {
+		reg(n, nil, lastIdx)
+	}
 	reg("strings.Index", nil, strIndex(false))
 	reg("strings.Contains", nil, strIndex(true))
 	reg("strings.HasPrefix", nil, func(f *frame, in ssa.Instruction, callee *ssa.Function, args []Val, pc string, h *Heap, nm string, resT types.Type) bool {
